@@ -1,5 +1,7 @@
 """C01 -- geometric planners only report solution paths that are real (reduced scope: the shared reporting/filter layer)."""
-import importlib.util, os, re
+import importlib.util, os, re, sys
+_REENTRANT = bool(sys.modules.get("_c01_loading"))      # C03 and C04 import this module and this module borrows units from them: nested loads borrow nothing
+sys.modules["_c01_loading"] = True
 _s = importlib.util.spec_from_file_location("c17", os.path.join(os.path.dirname(__file__), "C17.py")); C17 = importlib.util.module_from_spec(_s); _s.loader.exec_module(C17)
 PROPERTY = "C01"
 LEVEL = "proof"
@@ -258,17 +260,24 @@ NG_UNIT = dict(name="c01_inputstates_nextGoal_ptc", template="C01/nextgoal.c", m
                          dict(name="validity_of_the_previous_sample", where="body:nextGoal_ptc", rx=r"bool valid = bounds \? IS_VALID\(\) : false;", repl="bool valid = bounds ? valid_ok : false;")])
 UNITS.append(NG_UNIT)
 
+def _c04_tiny():
+    if _REENTRANT:
+        return []
+    sp = importlib.util.spec_from_file_location("c04t", os.path.join(os.path.dirname(__file__), "C04.py")); m = importlib.util.module_from_spec(sp); sp.loader.exec_module(m)
+    import copy as _copy
+    out = [_copy.deepcopy(m.TINY_GS)]
+    for u in m.UNITS:           # which stored solution the problem definition reports (flags, difference): the solution-set unit of C04
+        if u["name"] == "c04_solution_set":
+            v = _copy.deepcopy(u); v["name"] = "c01_solution_set"; out.append(v)
+    return out
+UNITS += _c04_tiny()
+
 # roadmap planners: a new problem definition forgets the old query's start/goal milestones (otherwise the old query's path is reported for the new one) -- units of C03
 def _c03_query_units():
     sp = importlib.util.spec_from_file_location("c03q", os.path.join(os.path.dirname(__file__), "C03.py")); m = importlib.util.module_from_spec(sp)
-    import sys as _sys
-    if _sys.modules.get("_c01_loading"):      # C03 imports C01: avoid the cycle
+    if _REENTRANT:
         return []
-    _sys.modules["_c01_loading"] = True
-    try:
-        sp.loader.exec_module(m)
-    finally:
-        del _sys.modules["_c01_loading"]
+    sp.loader.exec_module(m)
     import copy as _copy
     out = []
     for u in m.UNITS:
@@ -280,6 +289,8 @@ UNITS += _c03_query_units()
 # the motion validators every planner funnels through (anchors DiscreteMotionValidator.cpp, SpaceInformation.cpp): units of C05.  C01 needs them because several
 # planners (KPIECE1, BKPIECE1, STRIDE, PDST) keep the "last valid state" of checkMotion(s1, s2, lastValid) as a tree node: it must be a validated state.
 def _c05_units():
+    if _REENTRANT:
+        return []
     sp = importlib.util.spec_from_file_location("c05v", os.path.join(os.path.dirname(__file__), "C05.py")); m = importlib.util.module_from_spec(sp); sp.loader.exec_module(m)
     import copy as _copy
     out = []
@@ -306,3 +317,5 @@ def replay(ur, scratch, seed):
     exe = N.build_driver("native/misc_native.cpp", scratch, link_ompl=True, unit_cpps=MISC_CPPS)
     r = C.run_cmd([exe, "c01", str(seed), "5000"], 600, env=N.run_env())
     return dict(found=(r["rc"] == 1), driver="native/misc_native.cpp", args=["c01", seed, 5000], link_ompl=True, unit_cpps=MISC_CPPS, output=r["out"][-2500:])
+if not _REENTRANT:
+    del sys.modules["_c01_loading"]
